@@ -617,4 +617,69 @@ HARNESSES.append(
       require=lambda tier: ["rejected", "queued", "timed_out"], classify=sync_classify,
       functions=["Bulkhead.handle_event/_forward_request/_enqueue_request/_handle_response/_handle_timeout/_try_process_queued"],
       bounds=lambda tier: {"requests": 4, "arrivals": "symbolic ns [0,4]", "service ns": 3, "max_concurrent": [1, 2], "wait queue": [0, 1, 2], "wait timeout": [None, "2 ns"]},
-      outside=["connection pool", "thread pool"]))
+      outside=["connection pool"]))
+
+
+# ------------------------------------------------------------------ ThreadPool in the engine
+def thread_pool(sym, tier):
+    """4 tasks with symbolic arrival instants and per-task processing times (1 ns or 3 ns, carried in the
+    task's metadata) into a real ThreadPool (1-2 workers, bounded FIFO queue): never more active workers
+    than the pool has, the pool never has to turn a fetched task away, no task waits while a worker is
+    idle, every accepted task completes exactly once, queue overflow is counted."""
+    from happysimulator.components.server.thread_pool import ThreadPool
+    from happysimulator.core.event import Event
+    from happysimulator.core.simulation import Simulation
+    from happysimulator.core.temporal import Instant
+    from harness.common import Monitor, SpinDetected
+    r = Result()
+    k = 1 + sym.choice("workers_minus_1", 2)
+    qcap = sym.int("queue_capacity", 1, 3)
+    pool = ThreadPool("pool", num_workers=k, queue_capacity=qcap)
+    m = 3 if tier == "quick" else 4
+    ts = [sym.int(f"arrive{i}", 0, 4) for i in range(m)]
+    pt = [[1e-9, 3e-9][sym.choice(f"time{i}", 2)] for i in range(m)]
+    sim = Simulation(entities=[pool])
+    mon = Monitor(sim, cap=60)
+    problems = []
+
+    def on_advance(t):
+        if pool.queued_tasks > 0 and pool.has_capacity():
+            problems.append(("no_task_waits_while_a_worker_is_idle", t.nanoseconds, pool.queued_tasks, pool.active_workers))
+
+    def on_event(e):
+        if pool.active_workers > k:
+            problems.append(("active_workers_never_exceed_the_pool", pool.active_workers))
+
+    sim.control.on_time_advance(on_advance)
+    sim.control.on_event(on_event)
+    sim.schedule([Event(time=Instant(ts[i]), event_type=f"task{i}", target=pool, context={"metadata": {"processing_time": pt[i], "label": f"task{i}"}}) for i in range(m)])
+    try:
+        sim.run()
+    except SpinDetected:
+        pass
+    mon.judge(r, "thread_pool")
+    for p_ in problems[:1]:
+        r.bad(p_[0], {"detail": p_[1:], "arrivals_ns": ts, "workers": k, "queue": qcap})
+    st = pool.stats
+    if st.tasks_rejected:
+        r.bad("driver_fetches_work_only_for_a_free_worker_slot", {"rejected": st.tasks_rejected, "arrivals_ns": ts, "workers": k, "queue": qcap})
+    if not mon.spun:
+        if st.tasks_completed + pool.stats_dropped + st.tasks_rejected != m:
+            r.bad("every_task_completed_or_counted_as_dropped", {"completed": st.tasks_completed, "dropped": pool.stats_dropped, "offered": m, "arrivals_ns": ts})
+        if pool.queued_tasks != 0 or pool.active_workers != 0:
+            r.bad("pool_drains_at_quiescence", pool.queued_tasks, pool.active_workers)
+    if pool.stats_dropped:
+        r.wit.add("queue_overflow")
+    if len(set(ts)) < m:
+        r.wit.add("simultaneous_arrivals")
+    r.obs = {"completed": st.tasks_completed, "dropped": pool.stats_dropped}
+    return r
+
+
+HARNESSES.append(
+    H(name="c09_thread_pool", fn=thread_pool, shape="S", budget=lambda tier: 900.0 if tier == "quick" else 3000.0,
+      cubes=lambda tier: [{"workers_minus_1": a, "time0": b, "time1": c} for a in range(2) for b in range(2) for c in range(2)],
+      require=lambda tier: ["queue_overflow", "simultaneous_arrivals"], classify=sync_classify,
+      functions=["ThreadPool.handle_queued_event/has_capacity", "QueuedResource.handle_event", "QueueDriver.*", "FixedConcurrency.*"],
+      bounds=lambda tier: {"tasks": 3 if tier == "quick" else 4, "arrivals": "symbolic ns [0,4]", "processing ns": [1, 3], "workers": [1, 2], "queue capacity": "symbolic [1,3]"},
+      outside=["connection pool"]))
